@@ -31,6 +31,8 @@ def cell_id(c):
         return "var:%s/%s@%s" % (c["name"], c["access"], "+".join(c["scopes"]))
     if k == "fnconv":
         return "fnconv:%s(%s)#%d<-%s/%s@%s" % (c["name"], ",".join(c["sig"]), c["pos"], c["rt"], c["form"], "+".join(c["scopes"]))
+    if k == "dyn":
+        return "dyn:%s:%s@%s" % (c["how"], c["name"], "+".join(c["scopes"]))
     if k == "fnsig":
         return "fnsig:%s:%s(%s)@%s" % (c["why"], c["name"], ",".join(c["sig"]), "+".join(c["scopes"]))
     if k == "fn":
